@@ -15,8 +15,19 @@ oracle = on the implementation's own results, independent of the model:
          * shortcuts: a hand-written table of the documented shortcuts is walked on the real objects; the result must
            be the very objects (`is`), every one once, in document order; the Lean `Spec.documentedWalk` must agree;
          * copy / deepcopy / pickle must succeed and reproduce an equal model (canonical form).
+copy protocol (EXT-C16, model Ofx.CopyProto, driver ops `copy.all`, `copy.pinned`, `copy.schemaquiet`):
+impl   = x.__reduce_ex__(p) for p = 0..5 (callable, class, third argument of _reconstructor, state dict or None, list
+         iterator), copy.copy, copy.deepcopy, pickle.loads(pickle.dumps(x, p)) for p = 0..5, on full instances and on
+         half-built ones (cls.__new__(cls): empty / partial __dict__, members in place)
+model  = reduceEx / copyNode / deepcopyNode / pickleRoundtrip over Getattr.getattr; the theorems' premise
+         (probesUndefined && dictsWF, instQuiet) is evaluated on the same instance and compared with an independent walk
+oracle = the clone has the same class, is structurally equal (canon_inst) and is a distinct object; copy.copy shares every
+         child (dict values and members), deepcopy / pickle share no aggregate with the original
+replay = with Aggregate.__getattr__ as it was before 0f0930a (installed for the duration of the call), the real
+         copy/deepcopy/pickle fail exactly where the model over `getattrPinned` fails (ties the negative twin)
 """
 import copy
+import copyreg
 import hashlib
 import pickle
 import xml.etree.ElementTree as ET
@@ -327,6 +338,163 @@ def check_copies(env, x, case, lines, meta):
     meta.append(("probes", case, ok_all, x))
 
 
+# ------------------------------------------------------------------------------------------- copy protocol (model)
+COPY_PROBES = ["__deepcopy__", "__setstate__", "__slots__"]
+
+
+def _rel(orig, e):
+    """mirror of Drv.CopyProto.rel: what is the instance's own dict / member list / the instance itself -> `same`"""
+    return "same" if e == orig else e
+
+
+def _opt(v, f):
+    return "none" if v is None else ["some", f(v)]
+
+
+def canon_reduce(x, p, fields_c, items_c):
+    """x.__reduce_ex__(p) -> (ok (func cls base state listitems)) | (err kind)"""
+    r = run_impl(x.__reduce_ex__, p)
+    if r[0] != "ok":
+        return ["err", r[1]]
+    rv = r[1]
+    idx = codec.class_index()
+    if not isinstance(rv, tuple) or len(rv) < 2:
+        return ["ok", ["unexpected", type(rv).__name__]]
+    func, args = rv[0], rv[1]
+    state = rv[2] if len(rv) > 2 else None
+    listit = rv[3] if len(rv) > 3 else None
+    dictit = rv[4] if len(rv) > 4 else None
+    if func is copyreg._reconstructor and len(args) == 3 and args[1] is list and isinstance(args[2], list):
+        fname, cls, base = "reconstructor", args[0], args[2]
+    elif func is copyreg.__newobj__ and len(args) == 1:
+        fname, cls, base = "newobj", args[0], []
+    else:
+        return ["ok", ["unexpected", getattr(func, "__name__", "?"), str(len(args))]]
+    if dictit is not None or (state is not None and not isinstance(state, dict)):
+        return ["ok", ["unexpected-state", type(state).__name__]]
+    return ["ok", [fname, str(idx.get(cls, -1)), _rel(items_c, [canon_val(b) for b in base]),
+                   _opt(state, lambda d: _rel(fields_c, [[S(k), canon_val(v)] for k, v in d.items()])),
+                   _opt(listit, lambda it: _rel(items_c, [canon_val(m) for m in it]))]]
+
+
+def aggs_below(env, x, acc):
+    """ids of all aggregates reachable from x through dict values and members (x excluded)"""
+    for v in list(x.__dict__.values()) + members(x):
+        if isinstance(v, env.Aggregate) and id(v) not in acc:
+            acc[id(v)] = v
+            aggs_below(env, v, acc)
+    return acc
+
+
+def copy_premise(env, x):
+    """independent evaluation of the theorems' premises on the real instance:
+       (nothing defines a probe name on any aggregate of the tree, known classes & no probe name as a dict key)"""
+    idx = codec.class_index()
+    alls = [x] + list(aggs_below(env, x, {}).values())
+    und = all(not env.definers(a, n) and not env.prop_below(a, n) and not env.stray_below(a, n)
+              and not any(at["name"] == n for at in env.spec(a)) and type(a).__name__ in env.by_name
+              for a in alls for n in COPY_PROBES)
+    quiet = all(idx.get(type(a), -1) >= 0 and not any(n in a.__dict__ for n in COPY_PROBES) for a in alls)
+    return und, quiet
+
+
+def copy_ops():
+    ops = [("copy", copy.copy), ("deepcopy", copy.deepcopy)]
+    ops += [(f"pickle{p}", (lambda o, p=p: pickle.loads(pickle.dumps(o, p)))) for p in range(6)]
+    return ops
+
+
+def pinned_getattr(self, attr):
+    """Aggregate.__getattr__ as it was before 0f0930a (the sub-aggregate read outside the try)"""
+    for subaggregate in self.subaggregates:
+        subagg = getattr(self, subaggregate)
+        try:
+            return getattr(subagg, attr)
+        except (AttributeError, KeyError):
+            continue
+    cls = self.__class__.__name__
+    raise AttributeError(f"'{cls}' object has no attribute '{attr}'")
+
+
+def protocol_customised(cls):
+    """the class (or a base below `list`/`object`) takes the copy/pickle protocol into its own hands: then HOW a clone is
+    made is the class's business and only the outcome is the property's (equal, distinct, sharing) — the mechanism
+    comparisons (reduce value, replay of the pinned __getattr__) are skipped, outcome comparisons and oracles stay"""
+    if any(getattr(cls, n, None) is not getattr(object, n, None) for n in ("__reduce_ex__", "__reduce__", "__getstate__")):
+        return True
+    return any(hasattr(cls, n) for n in ("__copy__", "__deepcopy__", "__setstate__", "__getnewargs__",
+                                         "__getnewargs_ex__", "__slots__", "__getinitargs__"))
+
+
+def check_copy_model(env, x, case, lines, meta, state="full", pinned=False):
+    """the whole protocol against the model + the identity oracles the model cannot express"""
+    ctx = env.ctx
+    cn = type(x).__name__
+    before = canon_inst(x)
+    fields_c, items_c = before[2], before[3]
+    custom = protocol_customised(type(x)) or copyreg.dispatch_table.get(type(x)) is not None
+    if custom:
+        ctx.stat("copyproto:protocol_customised_by_class")
+        pinned = False
+    reduces = None if custom else [canon_reduce(x, p, fields_c, items_c) for p in range(6)]
+    below = aggs_below(env, x, {})
+    clones = []
+    for op, f in copy_ops():
+        r = run_impl(f, x)
+        ctx.stat("copyproto:" + op + ":" + state.split("/")[0].rstrip("0123456789"))
+        if r[0] != "ok":
+            clones.append(["err", r[1]])
+            if state != "full":       # full instances are reported by check_copies
+                ctx.violate(op.rstrip("012345") + "_raises", dict(case, op=op, state=state, tree=tree_text(x)),
+                            f"{op} of a half-built {cn} instance ({state}) raises {r[1]}", {"kind": r[1]})
+            continue
+        y = r[1]
+        cy = canon_inst(y) if isinstance(y, env.Aggregate) else ["not-an-aggregate", type(y).__name__]
+        clones.append(["ok", _rel(before, cy)])
+        c2 = dict(case, op=op, state=state)
+        if type(y) is not type(x):
+            ctx.violate(op.rstrip("012345") + "_wrong_class", c2, f"{op} of {cn} gives a {type(y).__name__}", {})
+            continue
+        if y is x:
+            ctx.violate(op.rstrip("012345") + "_not_distinct", c2, f"{op} of {cn} returned the object itself", {})
+        if cy != before and (state != "full" or op in ("pickle1", "pickle3", "pickle5")):
+            ctx.violate(op.rstrip("012345") + "_not_equal", dict(c2, tree=tree_text(x)),
+                        f"{op} of a {cn} instance ({state}) does not reproduce an equal model", {})
+        if op == "copy":
+            shared = (len(y.__dict__) == len(x.__dict__) and all(a is b for a, b in zip(y.__dict__.values(), x.__dict__.values()))
+                      and len(y) == len(x) and all(a is b for a, b in zip(members(y), members(x))))
+            if cy == before and not shared:
+                ctx.violate("copy_not_shallow", c2, f"copy.copy of {cn} copied a child (dict value or member)", {})
+        else:
+            mine = aggs_below(env, y, {})
+            both = [v for i, v in mine.items() if i in below]
+            if both or id(x) in mine or id(y) in below:
+                ctx.violate(op.rstrip("012345") + "_shares_child", c2,
+                            f"{op} of {cn} shares the aggregate {type(both[0]).__name__ if both else cn} with the original", {})
+    if canon_inst(x) != before:
+        ctx.violate("copy_mutates", dict(case, state=state), f"copying a {cn} instance changed it", {})
+    und, quiet = copy_premise(env, x)
+    impl = [reduces, clones[0], clones[1], clones[2:], codec.b(und), codec.b(quiet)]
+    lines.append("copy.all " + text(before))
+    meta.append(("copy.all", dict(case, state=state), impl, x))
+    if pinned:
+        from ofxtools.models.base import Aggregate
+        saved = Aggregate.__dict__["__getattr__"]
+        res = []
+        try:
+            Aggregate.__getattr__ = pinned_getattr
+            for op, f in (("copy", copy.copy), ("deepcopy", copy.deepcopy),
+                          ("pickle0", lambda o: pickle.loads(pickle.dumps(o, 0))),
+                          ("pickle2", lambda o: pickle.loads(pickle.dumps(o, 2)))):
+                r = run_impl(f, x)
+                ctx.stat("copyproto:pinned:" + op + ":" + r[0])
+                res.append(["ok", _rel(before, canon_inst(r[1]))] if r[0] == "ok" else ["err", r[1]])
+        finally:
+            Aggregate.__getattr__ = saved
+        lines.append("copy.pinned " + text(before))
+        meta.append(("copy.pinned", dict(case, state=state), res, x))
+
+
 # ------------------------------------------------------------------------------------------- generators
 def msgs_desc(gen, name, rng):
     """a message set with a random mixture of statement / closing-statement / other wrappers"""
@@ -430,6 +598,7 @@ def run(ctx):
     lines, meta = [], []
     run_fixed_witnesses(env, gen)
     reps = ctx.budget(3, 14)
+    n_copy = ctx.budget(1, 14)       # instances per class on which the whole copy protocol is run against the model
     for c in classes:
         name = c["name"]
         n_special = ctx.budget(24, 200) if special_desc(gen, name, rng) is not None else 0
@@ -481,14 +650,52 @@ def run(ctx):
                                     f"getattr({name}, {n!r}, default) gives {g[0]} {g[1] if g[0] == 'err' else ''}",
                                     {"kind": g[1] if g[0] == "err" else "value"})
                 check_copies(env, x, {"cls": name, "h": digest(text(canon_inst(x)))}, lines, meta)
+                if k < n_copy:
+                    check_copy_model(env, x, {"cls": name, "h": digest(text(canon_inst(x)))}, lines, meta, "full", pinned=True)
                 # half-built instances: empty and partial dict
                 nd = len(x.__dict__)
                 for kk in sorted({0, rng.randint(0, nd)}):
                     y = half_built(x, kk)
                     lookups_case(env, y, None, [n for n in pick_names(env, x, rng, 5, 4) if n not in env.all_props],
                                  name, f"partial{kk}/{nd}", lines, meta)
+                    if k < n_copy:
+                        check_copy_model(env, y, {"cls": name, "h": digest(text(canon_inst(y)))}, lines, meta,
+                                         f"partial{kk}/{nd}", pinned=(kk == 0))
+    lines.append("copy.schemaquiet")
+    meta.append(("copy.schemaquiet", {}, None, None))
     replies = ctx.model.ask(lines)
     for (op, case, data, x), rep in zip(meta, replies):
+        if op == "copy.all":
+            if rep.kind != "ok" or len(rep.vals) != 6:
+                ctx.disagree(op, case, "n/a", rep.raw[:300])
+                continue
+            mv = rep.vals
+            for p in range(6):
+                if data[0] is not None and not ctx.compare("copy.reduce_ex", dict(case, proto=p), data[0][p], mv[0][p]):
+                    ctx.disagreements[-1]["case"]["tree"] = tree_text(x)
+            for nm, i_, m_ in ([("copy", data[1], mv[1]), ("deepcopy", data[2], mv[2])] +
+                               [(f"pickle{p}", data[3][p], mv[3][p]) for p in range(6)]):
+                if not ctx.compare("copy." + nm, case, i_, m_):
+                    ctx.disagreements[-1]["case"]["tree"] = tree_text(x)
+            ctx.compare("copy.premise", case, [data[4], data[5]], [mv[4], mv[5]])
+            ctx.stat("copyproto:premise:" + str(mv[4]) + str(mv[5]))
+            if mv[4] == "T" and any(c[0] != "ok" or c[1] != "same" for c in [data[1], data[2]] + data[3]):
+                # the theorems' premise holds on this instance, so (C16_copy_eq / _deepcopy_eq / _pickle_eq) the model
+                # reproduces it: an implementation that does not is outside what was proved
+                ctx.stat("copyproto:premise_true_but_impl_differs")
+            continue
+        if op == "copy.pinned":
+            if rep.kind != "ok" or len(rep.vals) != 4:
+                ctx.disagree(op, case, "n/a", rep.raw[:300])
+                continue
+            for nm, i_, m_ in zip(("copy", "deepcopy", "pickle0", "pickle2"), data, rep.vals):
+                if not ctx.compare("copy.pinned." + nm, case, i_, m_):
+                    ctx.disagreements[-1]["case"]["tree"] = tree_text(x)
+            continue
+        if op == "copy.schemaquiet":
+            und = [n for n in COPY_PROBES if n not in env.all_names]
+            ctx.compare("copy.schemaquiet", {}, codec.b(len(und) == len(COPY_PROBES)), rep.vals[0] if rep.kind == "ok" else rep.raw[:100])
+            continue
         if op == "getattrs":
             if rep.kind != "ok" or len(rep.vals) != len(data):
                 ctx.disagree(op, case, "n/a", rep.raw[:300])
